@@ -184,13 +184,19 @@ def run_both(ctx, scens, joint_key=None, rng=None, keep=None):
     jk, rb = source_flags()
     if joint_key is None:
         joint_key = jk
+    wedged = 0
     for scen in scens:
+        if wedged >= 2:
+            break          # the code under test does not terminate: two witnesses are enough
         scen.setdefault('releaseBeforeBail', rb)
+        scen.setdefault('budget_s', 8)
         d = Path(tempfile.mkdtemp(prefix='drv-', dir=ctx.scratch))
         try:
             obs = H.run_real(scen, d, rng=rng or ctx.rng)
         finally:
             shutil.rmtree(d, ignore_errors=True)
+        if obs['outcome'] == 'Watchdog':
+            wedged += 1
         lines.append(H.model_line(scen, obs, joint_key))
         out.append([scen, obs, H.render_obs(scen, obs), None])
     for row, m in zip(out, ctx.model(lines)):
